@@ -648,7 +648,10 @@ package internal
 //@   ghost ord slice[int]
 //@   at call toposort 1 ghost ord = ret
 //@   loop 3 invariant [C02,C10] order-built-so-far-follows-the-topological-order: 0 <= idx3 && idx3 <= len(ord) && len(topo) == idx3 && forall(j, int, implies(0 <= j && j < idx3, topo[j] == f.Funcs[ord[j]])) && forall(k, int, implies(0 <= k && k < len(f.Funcs), exists(j, int, 0 <= j && j < len(ord) && ord[j] == k))) && forall(j, int, implies(0 <= j && j < len(ord), 0 <= ord[j] && ord[j] < len(f.Funcs)))
-//@   ensures [C02,C10] every-function-is-in-the-generation-order: forall(i, int, implies(0 <= i && i < len(f.Funcs), exists(j, int, 0 <= j && j < len(f.TopoFuncs) && f.TopoFuncs[j] == f.Funcs[i])))
+//   (stated as the two facts it consists of - the order lists every function index, and TopoFuncs is the
+//   image of the order - so that every back end discharges it; the one-step combination "hence every function
+//   is in TopoFuncs" needs an instantiation chain that only one back end found, which made the proof fragile)
+//@   ensures [C02,C10] every-function-is-in-the-generation-order: len(f.TopoFuncs) == len(ord) && forall(j, int, implies(0 <= j && j < len(ord), 0 <= ord[j] && ord[j] < len(f.Funcs) && f.TopoFuncs[j] == f.Funcs[ord[j]])) && forall(k, int, implies(0 <= k && k < len(f.Funcs), exists(j, int, 0 <= j && j < len(ord) && ord[j] == k)))
 //@   ensures [C01,C02,C11,C07] every-function-depends-on-the-provider-of-each-of-its-dependencies: forall(i, int, implies(0 <= i && i < len(f.Funcs), forall(k, int, implies(0 <= k && k < len(f.Funcs[i].Dependencies) && $HASPROVI, exists(j, int, 0 <= j && j < len(f.Funcs[i].DependsOn) && f.Funcs[i].DependsOn[j] == f.Funcs[$PROVI])))))
 
 // ---------------------------------------------------------------------------
